@@ -27,6 +27,40 @@ type trio struct {
 	chAH [2]*client.Channel // [0] A's, [1] H's
 	chBH [2]*client.Channel // [0] B's, [1] H's
 	virt []virtInfo
+	// subAH is an honest sub-channel of A-H opened by A's client ([0] A's, [1] H's controller), if any
+	subAH [2]*client.Channel
+}
+
+// openSubAH lets A's real client open a sub-channel of A-H with small balances.
+func (t *trio) openSubAH(step int) bool {
+	ps := t.chAH[0].State()
+	alloc := channel.Allocation{Assets: ps.Assets, Backends: ps.Backends}
+	for range ps.Assets {
+		alloc.Balances = append(alloc.Balances, []channel.Bal{big.NewInt(7), big.NewInt(5)})
+	}
+	prop, err := client.NewSubChannelProposal(t.chAH[0].ID(), t.chAH[0].Params().ChallengeDuration, &alloc,
+		client.WithNonceFrom(kernel.NewRand(kernel.Derive(t.s.Sc.Seed, "sub-nonce", step))))
+	if err != nil {
+		return false
+	}
+	ctx, cancel := t.A.Ctx()
+	defer cancel()
+	ch, err := t.A.Client.ProposeChannel(ctx, prop)
+	t.s.Event("A", "driver:sub-open", fmt.Sprintf("err=%v", err))
+	if err != nil || ch == nil {
+		return false
+	}
+	var other *client.Channel
+	for i := 0; i < 5000 && other == nil; i++ {
+		if other = t.H.Chan(ch.ID()); other == nil {
+			time.Sleep(100 * time.Microsecond)
+		}
+	}
+	if other == nil {
+		return false
+	}
+	t.subAH = [2]*client.Channel{ch, other}
+	return true
 }
 
 type virtInfo struct {
